@@ -118,7 +118,9 @@ def shards(tier, seed):
     out = []
     allpairs = [(k, v) for k in KEYS for v in VALUES]
     if tier == 'quick':
-        out.append(('pairs', 'all', None, 2))
+        out.append(('pairs', 'all', None, 0))
+        for i in range(0, len(allpairs), 4):
+            out.append(('pairs', 'all', (i, min(i + 4, len(allpairs))), 2))
         core_pairs = len(CORE_K) * len(CORE_V)
         for i in range(core_pairs):
             out.append(('pairs', 'core', i, 3))
@@ -144,7 +146,7 @@ def bounds(tier, seed):
             'raw_alphabet': ALPHA, 'raw_length': 7 if tier == 'quick' else 9, 'flavours': 4}
 
 
-FLOORS = {'hist_sequences': 600, 'repeated_key': 100, 'forms_checked': 1000, 'params_checked': 1000, 'raw_agree': 100000, 'raw_empty_key': 1000}
+FLOORS = {'forms_other_delivery': 1000, 'hist_sequences': 600, 'repeated_key': 100, 'forms_checked': 1000, 'params_checked': 1000, 'raw_agree': 100000, 'raw_empty_key': 1000}
 
 
 def _request():
@@ -165,7 +167,24 @@ FORM_CTYPES = ['application/x-www-form-urlencoded', 'application/x-www-form-urle
 _ct_rot = [0]
 
 
-def observe_forms(Request, body_text, qs='', ctype='rotate'):
+class ShortStream:
+    """wsgi.input that answers every read(n) with at most `k` bytes (legal file semantics)"""
+
+    def __init__(self, data, k):
+        self.src = io.BytesIO(data)
+        self.k = k
+
+    def read(self, n=-1):
+        return self.src.read(self.k if n is None or n < 0 else min(n, self.k))
+
+    def readline(self, n=-1):
+        return self.src.readline(self.k if n is None or n < 0 else min(n, self.k))
+
+
+DELIVERIES = ['plain', 'body-read-first', 'body-sniffed-first', 'one-byte-reads', 'half-reads']
+
+
+def observe_forms(Request, body_text, qs='', ctype='rotate', delivery='plain'):
     body = body_text.encode('latin1')
     if ctype == 'rotate':        # every spelling of the urlencoded content type (and none at all) is used in turn
         _ct_rot[0] = (_ct_rot[0] + 1) % len(FORM_CTYPES)
@@ -173,7 +192,16 @@ def observe_forms(Request, body_text, qs='', ctype='rotate'):
     env = {'QUERY_STRING': qs, 'CONTENT_LENGTH': str(len(body)), 'wsgi.input': io.BytesIO(body), 'REQUEST_METHOD': 'POST'}
     if ctype is not None:
         env['CONTENT_TYPE'] = ctype
+    if delivery == 'one-byte-reads':
+        env['wsgi.input'] = ShortStream(body, 1)
+    elif delivery == 'half-reads':
+        env['wsgi.input'] = ShortStream(body, max(1, (len(body) + 1) // 2))
     r = Request(env)
+    if delivery == 'body-read-first':          # the handler looks at the raw body before it asks for the form
+        if r.body.read() != body:
+            raise AssertionError('raw body differs from what was sent')
+    elif delivery == 'body-sniffed-first':
+        r.body.read(3)
     return _plain(r.forms), _plain(r.params)
 
 
@@ -197,21 +225,25 @@ def check_pairs(res, Request, pairs, flavours, with_forms):
                                f'query {qs!r} -> {got!r}, expected {exp!r}', sig='roundtrip:query')
         if with_forms:
             ct = FORM_CTYPES[(len(qs) + fl) % len(FORM_CTYPES)]
-            try:
-                gf, gp = observe_forms(Request, qs, qs='z=1&a=q', ctype=ct)
-            except Exception as e:   # noqa
-                gf = gp = f'raised {type(e).__name__}: {e}'
-            res['transitions'] += 2
-            c['forms_checked'] += 1
-            c['params_checked'] += 1
-            if gf != exp:
-                core.add_violation(res, {'kind': 'pairs', 'pairs': [list(p) for p in pairs], 'flavour': fl, 'at': 'forms', 'ctype': ct},
-                                   f'forms body {qs!r} (Content-Type {ct!r}) -> {gf!r}, expected {exp!r}', sig='roundtrip:forms')
-            expp = {'z': '1', 'a': 'q'}
-            expp.update(exp)
-            if gp != expp:
-                core.add_violation(res, {'kind': 'pairs', 'pairs': [list(p) for p in pairs], 'flavour': fl, 'at': 'params', 'ctype': ct},
-                                   f'params (query z=1&a=q, body {qs!r}, Content-Type {ct!r}) -> {gp!r}, expected {expp!r}', sig='roundtrip:params')
+            # every way of delivery for lists of <= 2 pairs, one (rotating) for longer lists
+            for dl in (DELIVERIES if len(pairs) < 3 else [DELIVERIES[(len(qs) + fl) % len(DELIVERIES)]]):
+                try:
+                    gf, gp = observe_forms(Request, qs, qs='z=1&a=q', ctype=ct, delivery=dl)
+                except Exception as e:   # noqa
+                    gf = gp = f'raised {type(e).__name__}: {e}'
+                res['transitions'] += 2
+                c['forms_checked'] += 1
+                c['params_checked'] += 1
+                if dl != 'plain':
+                    c['forms_other_delivery'] += 1
+                if gf != exp:
+                    core.add_violation(res, {'kind': 'pairs', 'pairs': [list(p) for p in pairs], 'flavour': fl, 'at': 'forms', 'ctype': ct, 'delivery': dl},
+                                       f'forms body {qs!r} (Content-Type {ct!r}, {dl}) -> {gf!r}, expected {exp!r}', sig='roundtrip:forms')
+                expp = {'z': '1', 'a': 'q'}
+                expp.update(exp)
+                if gp != expp:
+                    core.add_violation(res, {'kind': 'pairs', 'pairs': [list(p) for p in pairs], 'flavour': fl, 'at': 'params', 'ctype': ct, 'delivery': dl},
+                                       f'params (query z=1&a=q, body {qs!r}, Content-Type {ct!r}, {dl}) -> {gp!r}, expected {expp!r}', sig='roundtrip:params')
     res['execs'] += len(flavours)
     if nontriv or any(ch in '&=+% ' or ord(ch) > 127 for k, v in pairs for ch in k + v):
         res['nontrivial'] += len(flavours)
@@ -300,7 +332,8 @@ def work(spec):
             lists = itertools.chain.from_iterable(itertools.product(universe, repeat=m) for m in range(0, n + 1))
             fls = (0, 1, 2, 3)
         else:
-            lists = ((universe[first],) + rest for m in range(0, n) for rest in itertools.product(universe, repeat=m))
+            firsts = [universe[j] for j in range(*first)] if isinstance(first, tuple) else [universe[first]]
+            lists = ((f0,) + rest for f0 in firsts for m in range(0, n) for rest in itertools.product(universe, repeat=m))
             fls = None
         for i, pairs in enumerate(lists):
             f = fls if fls is not None else ((0, 1, 2, 3) if len(pairs) < 3 else (i % 4,))
@@ -388,7 +421,7 @@ def replay(case):
             if case['at'] == 'query':
                 got = observe_query(Request, qs)
             else:
-                gf, gp = observe_forms(Request, qs, qs='z=1&a=q', ctype=case.get('ctype', FORM_CTYPES[0]))
+                gf, gp = observe_forms(Request, qs, qs='z=1&a=q', ctype=case.get('ctype', FORM_CTYPES[0]), delivery=case.get('delivery', 'plain'))
                 if case['at'] == 'forms':
                     got = gf
                 else:
@@ -398,7 +431,9 @@ def replay(case):
                     exp = e2
         except Exception as e:   # noqa
             got = f'raised {type(e).__name__}: {e}'
-        return None if got == exp else f'pairs {pairs!r} encoded as {qs!r}: Request.{case["at"]} gives {got!r}, expected {exp!r}'
+        how = {'body-read-first': ' after the handler has read request.body completely', 'body-sniffed-first': ' after the handler has read 3 bytes of request.body',
+               'one-byte-reads': ' (wsgi.input answers every read with one byte)', 'half-reads': ' (wsgi.input answers every read with at most half of the body)'}.get(case.get('delivery'), '')
+        return None if got == exp else f'pairs {pairs!r} encoded as {qs!r}: Request.{case["at"]}{how} gives {got!r}, expected {exp!r}'
     s = case['s']
     exp, empty = ref_decode(s)
     try:
